@@ -4,7 +4,7 @@
 (* bsel picks which of the program's breakable lines carry a breakpoint           *)
 (* ("none", "all", or a random subset given as a sequence of booleans applied     *)
 (* cyclically to the breakable lines in source order; "func" puts a function      *)
-(* breakpoint on f instead); policy is the cyclic sequence of requests the        *)
+(* breakpoint on f instead, "mixed" both in one request); policy is the cyclic sequence of requests the        *)
 (* driver issues at successive stops.  The predicted observations are those of    *)
 (* the program itself (output, end, and - through the identifiers of its print    *)
 (* statements - the order in which breakable lines execute): running under the    *)
@@ -25,6 +25,8 @@ RandSel(z) ==
     CASE RandomElement(1..6) = 1 -> [mode |-> "none", bits |-> <<>>]
       [] RandomElement(1..3) = 1 -> [mode |-> "all", bits |-> <<>>]
       [] RandomElement(1..8) = 1 -> [mode |-> "func", bits |-> <<>>]
+      \* a function breakpoint on f AND line breakpoints, set by one request
+      [] RandomElement(1..4) = 1 -> [mode |-> "mixed", bits |-> [i \in 1..RandomElement(2..7) |-> RandomElement(BOOLEAN)]]
       [] OTHER -> [mode |-> "subset", bits |-> [i \in 1..RandomElement(2..7) |-> RandomElement(BOOLEAN)]]
 
 \* when the breakpoints are installed: before the first resume, or at the entry stop
@@ -39,5 +41,5 @@ SpecDbg == InitDbg /\ [][NextDbg]_dvars
 
 EmitDbg == Finished =>
     PrintT(<<"BEH", ToJson([prog |-> prog, out |-> res.out, status |-> res.status, pval |-> res.pval,
-                            globals |-> res.globals, steps |-> res.steps, bsel |-> bsel, policy |-> policy, setat |-> setat])>>)
+                            globals |-> res.globals, steps |-> res.steps, tr |-> res.tr, bsel |-> bsel, policy |-> policy, setat |-> setat])>>)
 ===============================================================================
